@@ -47,7 +47,7 @@ def check(rep, tier, seed):
             # the non-diploid genotype in ANY selected column; the other selected columns keep whatever they hold
             # (called, missing, multiallelic): the error must win wherever it stands
             fcol = cols.index(rng.choice(selected))
-            r2[i][fcol] = rng.choice(["0", "1", "0/1/1", "0|1|1"])
+            r2[i][fcol] = rng.choice(["0", "1", "0/1/1", "0|1|1", "./0/1", "././.", ".|1|1|0", "1/."[:1], "0/./1"])
             if len(selected) > 1 and rng.random() < 0.5:
                 r2[i][cols.index(selected[0])] = rng.choice(["./.", "1/2"]) if cols.index(selected[0]) != fcol else r2[i][fcol]
             add(r2, False, note="ploidy@%d" % i)
